@@ -128,6 +128,7 @@ Observe ==
                valruns |-> LET vr == ValRuns(Root, o) IN vr \cup {BaseOf(m) : m \in vr},
                maylog |-> MayLog(Root, o), mustlog |-> MustLog(Root, o), nolog |-> NoLog(Root, o),
                swallows |-> Swallows(Root, o) \/ LET k == KeysOf(Root, o) IN k.ok /\ Swallows(Root, Restrict(o, k.ks)),
+               keyblind |-> KeyBlind(Root, o) \/ LET k == KeysOf(Root, o) IN k.ok /\ KeyBlind(Root, Restrict(o, k.ks)),
                visited |-> {x.n : x \in Visit(Root, o)} \cup {BaseOf(x.n) : x \in Visit(Root, o)},
                raises |-> Raises, hist |-> hist,
                set0 |-> LET r == NodeRec(Root) IN IF r.k = "opt" /\ (o.t = "d") THEN SetPath(r.p, I(0), o) ELSE EmptyD, visitedn |-> {x.n : x \in Visit(Root, o)},
